@@ -211,8 +211,25 @@ func (s *SimSCTP) IsClosed() bool {
 	return s.closed
 }
 
-func (s *SimSCTP) LocalAddr() net.Addr  { return s.laddr }
-func (s *SimSCTP) RemoteAddr() net.Addr { return s.raddr }
+// Like the kernel socket behind ishidawataru/sctp, a closed association no longer
+// knows its addresses.
+func (s *SimSCTP) LocalAddr() net.Addr {
+	s.mu.Lock()
+	defer s.mu.Unlock()
+	if s.closed {
+		return nil
+	}
+	return s.laddr
+}
+
+func (s *SimSCTP) RemoteAddr() net.Addr {
+	s.mu.Lock()
+	defer s.mu.Unlock()
+	if s.closed {
+		return nil
+	}
+	return s.raddr
+}
 
 type c19Msg struct {
 	ref   RefMsg
@@ -886,16 +903,23 @@ func c15Sctp(e *Env) {
 		total  int // messages planned
 		faultAt int // feed index at which the association fails (-1 = healthy)
 		failed bool
+		panics bool
 	}
 	var mu sync.Mutex
 	handled := map[string]int{}
 	mux := diam.NewServeMux()
+	panicOn := -1 // association whose first handler panics (instead of a read error)
 	mux.HandleFunc("ALL", func(c diam.Conn, m *diam.Message) {
 		if len(m.AVP) > 0 {
 			if ai, _, ok := parseMarker(m.AVP[0].Data.Serialize()); ok {
 				mu.Lock()
 				handled[fmt.Sprintf("a%d", ai)]++
+				boom := ai == panicOn
 				mu.Unlock()
+				if boom {
+					e.Fault("sctp-handler-panic")
+					panic("sim: handler panic on an SCTP association")
+				}
 			}
 		}
 		a := m.Answer(2001)
@@ -930,7 +954,14 @@ func c15Sctp(e *Env) {
 			a.total += nm
 		}
 		if i == faulty {
-			a.faultAt = t.Range(0, len(a.chunks))
+			if t.Chance(1, 3) {
+				mu.Lock()
+				panicOn = i
+				mu.Unlock()
+				a.panics = true
+			} else {
+				a.faultAt = t.Range(0, len(a.chunks))
+			}
 		}
 		msc := diam.NewVerifSCTPConn(a.be)
 		defer diam.VerifSCTPRelease(msc)
@@ -976,6 +1007,12 @@ func c15Sctp(e *Env) {
 	mu.Lock()
 	defer mu.Unlock()
 	for _, a := range as {
+		if a.panics {
+			if handled[a.name] > 0 && !a.be.IsClosed() {
+				e.Fail("C15/faulty-connection-not-closed/sctp", "%s: a handler panicked and the association was not closed", a.name)
+			}
+			continue
+		}
 		if a.failed {
 			if !a.be.IsClosed() {
 				e.Fail("C15/faulty-connection-not-closed/sctp", "%s: the association's read failed and it was not closed", a.name)
